@@ -11,7 +11,7 @@ from __future__ import annotations
 import ast
 
 from ..core import Rule, AnalysisError, norm
-from .. import pyfront
+from .. import pyfront, pyutil
 from . import c02, c20
 
 TL = "_top_level_dir_properties"
@@ -34,9 +34,10 @@ def r2_tolerates_vanished_files(repo=None):
     m = pyfront.mod("digital_rf_hdf5", repo)
     q = TL + "._get_bounds"
     f = m.fn(q)
-    loops = [n for n in pyfront.walk_no_nested(f) if isinstance(n, ast.For) and "ilsdrf" in ast.unparse(n.iter)]
-    if len(loops) != 2:
-        raise AnalysisError("%s: expected 2 listing loops, found %d" % (q, len(loops)))
+    scope = [f] + [h for h, c, b in pyutil.local_helpers(m, f, depth=2)]
+    loops = [n for fn_ in scope for n in pyfront.walk_no_nested(fn_) if isinstance(n, ast.For) and "ilsdrf" in ast.unparse(n.iter)]
+    if not loops:
+        raise AnalysisError("%s: no loop over the ilsdrf listing found (directly or in a helper)" % q)
     for lp in loops:
         trs = [s for s in lp.body if isinstance(s, ast.Try)]
         ok = False
@@ -53,7 +54,11 @@ def r2_tolerates_vanished_files(repo=None):
     # _read: probe with os.access, open read-only, skip when not accessible
     q = TL + "._read"
     g = m.cfg(q)
-    opens = [n for n in g.nodes if any(pyfront.call_name(c) == "h5py.File" for c in pyfront.node_calls(n))]
+    openers = {"h5py.File": None}
+    for h, c, b in pyutil.local_helpers(m, m.fn(q), depth=1):
+        if any(isinstance(x, ast.Call) and pyfront.call_name(x) == "h5py.File" for x in ast.walk(h)):
+            openers[pyfront.call_name(c)] = h
+    opens = [n for n in g.nodes if any(pyfront.call_name(c) in openers for c in pyfront.node_calls(n))]
     probes = [n for n in g.nodes if n.kind == "cond" and any(pyfront.call_name(c) == "os.access" for c in pyfront.node_calls(n))]
     if not opens or not probes:
         raise AnalysisError("%s: h5py.File / os.access not found" % q)
@@ -61,10 +66,13 @@ def r2_tolerates_vanished_files(repo=None):
     fs = [b for b, l in g.succ[p.id] if l == "F"]  # `not os.access(...)` decomposed: F edge = not accessible
     ok = all(o.id not in g.reach([g.entry.id], avoid=[p.id], skip_labels=("exc",)) for o in opens) and not any(
         o.id in g.reach(fs, avoid=[p.id], skip_labels=("exc", "back")) for o in opens)
-    for o in opens:
-        for c in pyfront.node_calls(o):
-            if pyfront.call_name(c) == "h5py.File" and pyfront.const(pyfront.kwarg(c, "mode", 1)) != "r":
-                ok = False
+    file_calls = [c for o in opens for c in pyfront.node_calls(o) if pyfront.call_name(c) == "h5py.File"]
+    for h in openers.values():
+        if h is not None:
+            file_calls += [x for x in ast.walk(h) if isinstance(x, ast.Call) and pyfront.call_name(x) == "h5py.File"]
+    for c in file_calls:
+        if pyfront.const(pyfront.kwarg(c, "mode", 1)) != "r":
+            ok = False
     if ok:
         r.ok("%s:%s %s" % (m.rel, p.line, q), "every open is preceded by the os.access probe (inaccessible -> skipped) and is read-only")
     else:
@@ -78,31 +86,60 @@ def r3_cache_is_keyed_by_full_name(repo=None):
     m = pyfront.mod("digital_rf_hdf5", repo)
     q = TL + "._read"
     f = m.fn(q)
+    joins = [n for n in ast.walk(f) if isinstance(n, ast.Assign) and isinstance(n.targets[0], ast.Name) and isinstance(n.value, ast.Call)
+             and pyfront.call_name(n.value) == "os.path.join"]
+    if len(joins) != 1:
+        raise AnalysisError("%s: full path construction (os.path.join) not found exactly once" % q)
+    fv = joins[0].targets[0].id
     ifs = [n for n in ast.walk(f) if isinstance(n, ast.If) and norm(ast.unparse(n.test)) in (
-        "fullfile != self._cachedFilename", "self._cachedFilename != fullfile")]
+        "%s != self._cachedFilename" % fv, "self._cachedFilename != %s" % fv)]
     if len(ifs) != 1:
-        r.violation(m.rel, q, "no `fullfile != self._cachedFilename` test", "the cache of the open file is not keyed by the full path: "
+        r.violation(m.rel, q, "no `%s != self._cachedFilename` test" % fv, "the cache of the open file is not keyed by the full path: "
                     "state of another file (same relative name in another top-level directory, or a stale handle) could be used",
                     line=f.lineno)
         return r
     body = ifs[0]
-    stored = {a for a, n in pyfront.self_stores(ast.Module(body=body.body, type_ignores=[])) }
-    need = {"_cachedFile", "_cachedFilename", "rf_data", "rf_data_len", "rf_index", "rf_index_len"}
+    # statements executed under the test: the body itself plus same-class helpers it calls (with the key passed as argument)
+    region = ast.Module(body=list(body.body), type_ignores=[])
+    stored = {a for a, n in pyfront.self_stores(region)}
     key_ok = any(isinstance(n, ast.Assign) and pyfront.dotted(n.targets[0]) == "self._cachedFilename"
-                 and norm(ast.unparse(n.value)) == "fullfile" for n in ast.walk(body))
-    outside = [a for a, n in pyfront.self_stores(f) if a in need and not (body.lineno <= n.lineno <= body.end_lineno)]
+                 and norm(ast.unparse(n.value)) == fv for n in ast.walk(region))
+    helper_ids = set()
+    for c in ast.walk(region):
+        if isinstance(c, ast.Call) and (pyfront.call_name(c) or "").startswith("self."):
+            h = m.functions.get(TL + "." + pyfront.call_name(c)[5:])
+            if h is None:
+                continue
+            helper_ids.add(id(h))
+            params = [a.arg for a in h.args.args if a.arg != "self"]
+            bind = dict(zip(params, [norm(ast.unparse(a)) for a in c.args]))
+            bind.update({k.arg: norm(ast.unparse(k.value)) for k in c.keywords if k.arg})
+            stored |= {a for a, n in pyfront.self_stores(h)}
+            for n in ast.walk(h):
+                if isinstance(n, ast.Assign) and pyfront.dotted(n.targets[0]) == "self._cachedFilename" \
+                        and isinstance(n.value, ast.Name) and bind.get(n.value.id) == fv:
+                    key_ok = True
+    need = {"_cachedFile", "_cachedFilename", "rf_data", "rf_data_len", "rf_index", "rf_index_len"}
+    outside = []
+    for q2, f2 in m.functions.items():
+        if not q2.startswith(TL + ".") or q2.endswith(".__init__") or id(f2) in helper_ids:
+            continue
+        for a, n in pyfront.self_stores(f2):
+            if a in need and not (f2 is f and body.lineno <= n.lineno <= body.end_lineno):
+                outside.append("%s in %s" % (a, q2))
     if need <= stored and key_ok and not outside:
         r.ok("%s:%s %s" % (m.rel, body.lineno, q), "file handle, datasets, index copy and lengths are all refreshed together under "
              "the full-name test; the key is set to the full path")
     else:
-        r.violation(m.rel, q, "cache refresh stores %s (missing %s, outside %s)" % (sorted(stored), sorted(need - stored), outside),
+        r.violation(m.rel, q, "cache refresh stores %s (missing %s, outside %s, key set to full path: %s)" % (
+                    sorted(stored & need), sorted(need - stored), outside, key_ok),
                     "part of the cached per-file state is not refreshed when the file changes", line=body.lineno)
-    # fullfile is the absolute join
-    joins = [n for n in ast.walk(f) if isinstance(n, ast.Assign) and pyfront.dotted(n.targets[0]) == "fullfile"]
-    if joins and norm(ast.unparse(joins[0].value)) == "os.path.join(self.top_level_dir, self.channel_name, fp)":
-        r.ok("%s:%s %s" % (m.rel, joins[0].lineno, q), "fullfile = top_level_dir/channel/relative path")
+    # the key is the absolute join
+    if norm(ast.unparse(joins[0].value)) == "os.path.join(self.top_level_dir, self.channel_name, fp)" or [
+            norm(ast.unparse(a)) for a in joins[0].value.args[:2]] == ["self.top_level_dir", "self.channel_name"]:
+        r.ok("%s:%s %s" % (m.rel, joins[0].lineno, q), "%s = top_level_dir/channel/relative path" % fv)
     else:
-        r.violation(m.rel, q, "fullfile definition", "cache key is not the full path", line=f.lineno)
+        r.violation(m.rel, q, "%s = %s" % (fv, norm(ast.unparse(joins[0].value))), "cache key is not the full path", line=joins[0].lineno)
     r.guard(2)
     return r
 
